@@ -24,12 +24,15 @@ def main():
     prop = sys.argv[2]
     budget = "40"
     keep = None
+    also = None
     a = sys.argv[3:]
     while a:
         if a[0] == "--budget":
             budget = a[1]; a = a[2:]
         elif a[0] == "--keep":
             keep = a[1]; a = a[2:]
+        elif a[0] == "--also":  # a sibling property whose check is run too when the own check does not detect the change
+            also = a[1]; a = a[2:]
         else:
             a = a[1:]
     patch = os.path.join(d, "patch.diff")
@@ -120,6 +123,11 @@ def main():
         res["check_wall_s"] = round(time.time() - t0, 1)
         rules = sorted(set(l.split("rule=")[1].split(" ")[0] for l in r.stdout.splitlines() if l.strip().startswith("rule=")))
         res["rules"] = rules
+        if also and not res["detected"]:
+            t1 = time.time()
+            r2 = subprocess.run(["./check", also, "quick"], cwd=snap, env=e, stdout=subprocess.PIPE, stderr=subprocess.STDOUT, text=True, timeout=3600)
+            rules2 = sorted(set(l.split("rule=")[1].split(" ")[0] for l in r2.stdout.splitlines() if l.strip().startswith("rule=")))
+            res["sibling"] = {"property": also, "cmd": "./check %s quick (VERIF_BUDGET_S=%s)" % (also, budget), "detected": r2.returncode == 1, "exit": r2.returncode, "rules": rules2, "wall_s": round(time.time() - t1, 1)}
     finally:
         sh(["git", "-C", "/repo", "checkout", "--", "."])
         os.remove(curpatch)
@@ -145,6 +153,8 @@ def main():
                 "needs_to_manifest": "see README.md", "demo_package": pkg, "demo_run": runpat,
                 "confirmed": {k: res[k] for k in ("builds", "demo_passes_without_patch", "demo_fails_with_patch", "suite_passes_with_patch")},
                 "check": {"cmd": "./check %s quick (VERIF_BUDGET_S=%s)" % (prop, budget), "detected": res["detected"], "exit": res["check_exit"], "rules": res.get("rules", []), "wall_s": res.get("check_wall_s")}}
+        if res.get("sibling"):
+            meta["sibling_check"] = res["sibling"]
         json.dump(meta, open(os.path.join(kd, "meta.json"), "w"), indent=1)
     print(json.dumps(res, indent=1))
     return 0
